@@ -71,8 +71,8 @@ def random_grammar(rng, name, n_nt=3, n_t=3, n_rules=(3, 7), max_rhs=3, p_empty=
                 r[rng.randrange(len(r))] = 'error'
         if len(r) == 1 and r[0] == l:
             r = [rng.choice(ts)]
-        rules.append((l, r, rng.choice([0, 0, 0, 1, 2, 3]) if prec else 0))
-    tprec = {t: rng.choice([0, 1, 2]) for t in ts} if prec else {}
+        rules.append((l, r, rng.choice([0, 0, 0, 1, 2, 3, -1]) if prec else 0))
+    tprec = {t: rng.choice([0, 1, 2, 2, -1]) for t in ts} if prec else {}
     tassoc = {t: rng.choice([0, 1, 2]) for t in ts} if prec else {}
     return Grammar(name, nts, ts, 'S', rules, tprec, tassoc)
 
